@@ -469,7 +469,15 @@ def ew_select(V, kind, bits, sub, reversed_operands):
     return cl
 
 
-FUNCS = {"ew_select": ew_select, "prep_scales": prep_scales, "qs": qs, "rqs": rqs, "classes": classes, "pool": pool, "pool_rescale": pool_rescale, "addsub": addsub, "simple_addsub": simple_addsub, "mul": mul}
+def scale_cache_key(V, **params):
+    """the scale records an operator gets are derived from ITS OWN input/output scales and bias values: a cached packing is only reused for the
+    same three (harness/c08.py scale_cache_key, symbolic scales)"""
+    from harness import c08
+
+    return c08.scale_cache_key(V, **params)
+
+
+FUNCS = {"scale_cache_key": scale_cache_key, "ew_select": ew_select, "prep_scales": prep_scales, "qs": qs, "rqs": rqs, "classes": classes, "pool": pool, "pool_rescale": pool_rescale, "addsub": addsub, "simple_addsub": simple_addsub, "mul": mul}
 
 
 def _windows(tier, seed):
@@ -490,6 +498,8 @@ def _windows(tier, seed):
 
 def instances(tier, seed):
     out = []
+    for diff in ("none", "bias_values", "ifm_scale", "ofm_scale"):
+        out.append(dict(key="scale_cache_key/%s" % diff, fn="scale_cache_key", params=dict(diff=diff)))
     for kind in ("py", "f64", "f32"):
         out.append(dict(key="qs/%s" % kind, fn="qs", params=dict(kind=kind), weight=100))
     out.append(dict(key="rqs/pair", fn="rqs", params=dict(zero=False)))
